@@ -398,7 +398,11 @@ fn variants_c17(cfg: &Cfg) -> Vec<(Cfg, bool, String)> {
     for (i, h) in HKINDS.iter().enumerate() {
         v.push((cfg.clone().with_ctor(0).with_hasher(*h), i % 2 == 1, h.name().to_string()));
     }
-    v.push((cfg.clone().with_ctor(1), true, "default-hasher".to_string()));
+    if cfg.kind != Kind::Wtlfu {
+        // (the plain W-TinyLFU constructor also uses a randomly keyed *key* hasher, i.e.
+        // different estimator verdicts, which the statement excludes)
+        v.push((cfg.clone().with_ctor(1), true, "default-hasher".to_string()));
+    }
     v
 }
 
@@ -693,6 +697,9 @@ pub fn c13_diff_suite(ctx: &Ctx, out: &mut ShardOut) {
         let mut cfg = random_cfg(kind, &mut rng, ctx.thorough);
         if matches!(cfg.kh, HKind::RandA | HKind::RandB) {
             cfg.kh = HKind::Ident;
+        }
+        if cfg.kind == Kind::Wtlfu && cfg.ctor == 1 {
+            cfg.ctor = 0;
         }
         let kt = if rng.chance(1, 5) { KeyType::Str } else { KeyType::Tracked };
         let uni = universe_for(&cfg, &mut rng);
